@@ -24,12 +24,17 @@ NOT_APPLICABLE = {}
 
 CHECKS = {
     "C01": dict(
-        harness="pkg__secretstore", run="TestVerifC01", level="exploration",
+        level="exploration",
+        parts=[
+            dict(name="secretstore", harness="pkg__secretstore", run="TestVerifC01"),
+            dict(name="messagestore", harness="root", run="TestVerifC01b"),
+        ],
         technique="exhaustive enumeration of a finite input/forgery catalogue against the real secret store",
         rule="every element of the catalogue (honest round trips over the payload alphabet x 3 group types x 2 receivers; every single-bit flip of whole sealed envelopes, before and after the honest open; every field substitution between 5 recorded envelopes; every device/counter/signature re-attribution; forgeries by a chain-key holder under 6 signers) is opened by a real receiver store on a clone of its datastore; distinct = distinct (group type, mutation kind, outcome, error class) tuples observed",
         assumptions=["payload bytes outside the 11 sizes x 3 patterns alphabet and keys outside the deterministic key alphabet are not covered",
                      "a bit flip that is a valid forgery is a 2^-128 event; structural bindings are checked, not primitive strength",
-                     "content identifier of an envelope is a digest of its bytes (as IPFS guarantees)"],
+                     "content identifier of an envelope is a digest of its bytes (as IPFS guarantees)",
+                     "part 'messagestore': MessageStore.openMessage on constructed log entries (every bit flip of one envelope, re-attributions, payload substitutions, other group); forgeries that need a fellow member's derived message key are in part 'secretstore' only"],
     ),
     "C02": dict(
         harness="pkg__secretstore", run="TestVerifC02", level="model_checking",
@@ -125,12 +130,16 @@ CHECKS = {
                      "grace period required by the oracle: RotationGracePeriod after the previous value's deadline"],
     ),
     "C06": dict(
-        harness="internal__handshake", run="TestVerifC06", level="model_checking",
+        level="model_checking",
+        parts=[
+            dict(name="handshake", harness="internal__handshake", run="TestVerifC06"),
+            dict(name="incoming", harness="root", run="TestVerifC06b"),
+        ],
         technique="exhaustive enumeration of a bounded Dolev-Yao attacker against the real requester/responder code: every combination of harvest sessions x every ephemeral choice x every constructible/replayable frame in every attacker-controlled slot; plus every single-bit flip and truncation of each frame of an honest run",
         rule="attacker M (a legitimate account) first runs 0..2 harvest sessions with honest parties (passive recording; A or B requests M; M requests A or B; M's ephemeral fresh or low-order), then attacks responder B claiming another account (T1) and requester A who targets B (T2); in each attacker-controlled slot every element of its knowledge closure is tried (fresh / 12 low-order / recorded / reflected ephemerals; every recorded frame; every known plaintext sealed under every computable key; empty, 1-byte, oversize; ack true/false/missing); classes = (target, ephemeral kind, frame kind, outcome)",
         assumptions=["the attacker cannot break X25519, Ed25519 or the box; it combines what it has seen or can compute",
                      "at most two harvest sessions before the targets (quick: pairs restricted to equal ephemeral kinds); frames B emits while being attacked (T1) are available for the attack on A (T2)",
-                     "handleIncomingRequest's check that the contact announced after the handshake equals the authenticated key is not part of this harness",
+                     "part 'incoming': the real handleIncomingRequest over an in-memory pipe against a requester that authenticates honestly and then announces a catalogue of contacts (its own, another account's, malformed, none)",
                      "counted as model_checking: states = attacker knowledge states (harvest combinations), transitions = partial handshakes executed against the real code"],
     ),
     "C04": dict(
@@ -146,7 +155,7 @@ CHECKS = {
         technique="exhaustive enumeration over real stores: logs of 0..6/12 entries x 7 arrival shapes (written locally, replicated in one batch newest/oldest first, entry by entry, mixed, after reopen) x every (since, until, reverse) query including unknown identifiers, against the append-order reference; all 32 parameter combinations of the list RPCs",
         rule="states = (log size, arrival shape) pairs of real metadata and message stores; transitions = listings executed; every listing runs the real ListEvents; classes = (store, arrival, kind of since, kind of until, reverse, error)",
         assumptions=["single-writer (causally ordered) logs; the mixed shape has two writers in strict alternation",
-                     "GroupMetadataList / GroupMessageList RPC streaming (until_now) is covered only through checkParametersConsistency and the store listings they call"],
+                     "GroupMetadataList / GroupMessageList are invoked in-process on a real service for every terminating (since, until or until_now, reverse) combination over the account group's logs (3 / 6 operations); the subscription mode (no upper bound) is exercised only by C19"],
     ),
     "C07": dict(
         harness="root", run="TestVerifC07", level="model_checking",
